@@ -467,20 +467,20 @@ From Mxj Require Import Gen.Setters_gen Gen.PureSupport Gen.Pure_gen Spec.ConvCl
 
 Theorem C01_xml_parser_code_is_model : forall pf callskip o r st fuel ts tm,
   dec_view st o -> cast_view st o -> length ts < fuel -> forallb start_ok ts = true ->
-  fn_xmlToMapParser (run_escapeChars st) (run_cast pf callskip st) fuel st [] [] (ts, tm) r
+  fn_xmlToMapParser (run_cast pf callskip st) (run_escapeChars st) fuel st [] [] (ts, tm) r
   = dec_top_result tm (xml_decode_rest pf (skip_of st callskip) o r ts tm).
 Proof. exact xml_parser_code_is_model_translated. Qed.
 Print Assumptions C01_xml_parser_code_is_model.
 
 Theorem C01_xml_parser_code_no_panic : forall pf callskip o r st fuel ts tm,
   dec_view st o -> cast_view st o -> length ts < fuel -> forallb start_ok ts = true -> top_ok ts = true ->
-  fn_xmlToMapParser (run_escapeChars st) (run_cast pf callskip st) fuel st [] [] (ts, tm) r <> Crash.
+  fn_xmlToMapParser (run_cast pf callskip st) (run_escapeChars st) fuel st [] [] (ts, tm) r <> Crash.
 Proof. exact xml_parser_code_no_panic. Qed.
 Print Assumptions C01_xml_parser_code_no_panic.
 
 Theorem C01_xml_parser_code_empty_name_refuted :
   exists pf skip o r st ts tm, dec_view st o /\
-    fn_xmlToMapParser escape_chars (fun x b t => cast pf skip o x b t) (S (length ts)) st [] [] (ts, tm) r
+    fn_xmlToMapParser (fun x b t => cast pf skip o x b t) escape_chars (S (length ts)) st [] [] (ts, tm) r
     <> dec_top_result tm (xml_decode_rest pf skip o r ts tm).
 Proof. exact xml_parser_code_is_model_empty_name_refuted. Qed.
 Print Assumptions C01_xml_parser_code_empty_name_refuted.
@@ -489,7 +489,7 @@ Example C01_xml_parser_code_nonvacuous :
   let ts := [TChar (s " "); TStart (ex_name "a") [{| aname := ex_name "k"; avalue := s "v" |}]; TChar (s " hi ");
              TStart (ex_name "b") []; TChar (s "true"); TEnd (ex_name "b"); TStart (ex_name "b") []; TEnd (ex_name "b"); TEnd (ex_name "a"); TChar (s "z")] in
   dec_view gstate0 opts0 /\ cast_view gstate0 opts0 /\ forallb start_ok ts = true /\ top_ok ts = true /\
-  fn_xmlToMapParser (run_escapeChars gstate0) (run_cast (fun _ => None) (fun _ => false) gstate0) (S (length ts)) gstate0 [] [] (ts, TermEOF) true
+  fn_xmlToMapParser (run_cast (fun _ => None) (fun _ => false) gstate0) (run_escapeChars gstate0) (S (length ts)) gstate0 [] [] (ts, TermEOF) true
   = Ret (Ok [(s "a", VMap [(s "-k", VStr (s "v")); (s "#text", VStr (s "hi")); (s "b", VList [VBool true; VStr []])])],
          ([TChar (s "z")], TermEOF)).
 Proof. exact xml_parser_code_example. Qed.
